@@ -310,14 +310,14 @@ def bindParams : List Param → List Int → Res Frame
     match p.dflt with
     | some d =>
       match storeChecked p.ty d, bindParams ps [] with
-      | .ok v, .ok fr => .ok ((p.name, .cell (.int p.ty v false)) :: fr)
+      | .ok v, .ok fr => .ok ((p.name, .cell (.int p.ty v p.const)) :: fr)
       | .err k, _ => .err k
       | _, .err k => .err k
       | _, _ => .undef
     | none => .err .arity
   | p :: ps, a :: as =>
     match storeChecked p.ty a, bindParams ps as with
-    | .ok v, .ok fr => .ok ((p.name, .cell (.int p.ty v false)) :: fr)
+    | .ok v, .ok fr => .ok ((p.name, .cell (.int p.ty v p.const)) :: fr)
     | .err k, _ => .err k
     | _, .err k => .err k
     | _, _ => .undef
@@ -347,6 +347,28 @@ def declDefault (const : Bool) (ty : Ty) (x : String) (dims : List Nat) : M Unit
   declareLocal x (.cell (defaultCell ty dims const))
 
 def declStructVar (sd : StructDef) (x : String) : M Unit := declareLocal x (structVal sd)
+
+/-- fields of a struct initialised in order from `vs` (scalar fields take the next value, array fields
+    and fields without a value start at zero); every value goes through `storeChecked` -/
+def initFields (const : Bool) : List FieldDef → List Int → Res (List (String × Cell))
+  | [], _ => .ok []
+  | fd :: fds, vs =>
+    match fd.dims, vs with
+    | [], v :: vs' =>
+      match storeChecked fd.ty v, initFields const fds vs' with
+      | .ok v', .ok r => .ok ((fd.name, .int fd.ty v' const) :: r)
+      | .err k, _ => .err k
+      | _, .err k => .err k
+      | _, _ => .undef
+    | _, _ =>
+      match initFields const fds vs with
+      | .ok r => .ok ((fd.name, defaultCell fd.ty fd.dims const) :: r)
+      | .err k => .err k
+      | _ => .undef
+
+def declStructInitVar (const : Bool) (sd : StructDef) (x : String) (vs : List Int) : M Unit := do
+  let fs ← liftRes (initFields const sd.fields vs)
+  declareLocal x (.struct sd.name fs)
 
 /-- enter a call: positional binding into a fresh frame, then run the body there -/
 def enterCall (fn : Func) (args : List Int) (m : M α) : M α := do
@@ -488,6 +510,12 @@ def execS (p : Prog) : Nat → Stmt → M Unit
     | .declStruct sn x =>
         match findStruct p sn with
         | some sd => declStructVar sd x
+        | none => undefM
+    | .declStructInit const sn x inits =>
+        match findStruct p sn with
+        | some sd => do
+          let vs ← evalEs p fuel inits
+          declStructInitVar const sd x vs
         | none => undefM
     | .assign lv e => do
         let v ← evalE p fuel e
